@@ -932,6 +932,9 @@ func (d *driver) replay(path string) {
 	if in == nil {
 		in = doc.Replay.Input
 	}
+	if d.replayBlocks(in) {
+		return
+	}
 	strs := unbs
 	isRange, _ := in["ranges"].(bool)
 	var qs []query
@@ -1332,6 +1335,9 @@ func main() {
 			d.fracCase(class+"-range", toks, rngs, len(toks))
 		}
 	}
+
+	// (g) packed token blocks, token providers, active token list (blocks.go)
+	d.blockStreams(thorough)
 
 	if err := w.Close(); err != nil {
 		panic(err)
